@@ -36,6 +36,15 @@ Theorem C16_withmap_is_qualify_tokens : forall cfg m B, m <> [] -> table_ok cfg 
             (fresh m r = true -> parse cfg (pl_chain m B L) (fflatten cfg (fqualify m B (bnames L) r)) = POk e).
 Proof. exact withmap_is_qualify_tokens. Qed.
 
+(* histories of ONE generator: AddConstant(n, v) puts a constant on top of g.identifier, GenerateWithMap(exp, m) reads
+   the current chain.  For every history and every start state, each GenerateWithMap agrees with Generate of the
+   program qualified relative to EXACTLY the constants registered before it ([hist_ok]).  The model's generator
+   state is just the identifier chain, so this is a corollary of C16_withmap_is_qualify (which holds for every B);
+   that the real generator has no other state that matters (e.g. a cache of AddMap chains) is what the history
+   mode of the correspondence run checks. *)
+Theorem C16_withmap_history : forall cfg, table_ok cfg = true -> forall h B, hist_ok cfg B h.
+Proof. exact withmap_history. Qed.
+
 (* the same on the rendering trees of the expression fragment (Syn/Render.v), kept for C03's fragment theorems: restricted to the expression fragment (operators, parentheses, identifiers,
    literals, member access, method call, call, index, list literal), under any enclosing binders L that do not
    rebind m.  Full statement (not proved, checked by correspondence):
@@ -135,6 +144,7 @@ Proof. vm_compute. repeat split. Qed.
 
 Print Assumptions C16_withmap_is_qualify.
 Print Assumptions C16_withmap_is_qualify_tokens.
+Print Assumptions C16_withmap_history.
 Print Assumptions C16_withmap_is_qualify_partial.
 Print Assumptions C16_attribute_lookup.
 Print Assumptions C16_other_lookup.
